@@ -23,7 +23,7 @@ RULE = ("Hypothesis trajectories (1-30 poses drawn; bulk to 1e5 poses in the tho
         "Non-trivial = a stored value needing >= 16 significant digits, or magnitude outside 1e+-100, or -0.0; distinct by SHA-1")
 ASSUMPTIONS = ["bit-exact comparison (numpy.array_equal plus sign of zeros) on what the format stores; for matrix-built objects the "
                "quaternion evo derives is what a TUM file stores",
-               "ROS1 bag: 0 <= t < 2^31, |dt| <= 1 ns + 2 ulp(t); ROS2 is outside the statement"]
+               "ROS1 bag: 0 <= t < 2^31, |dt| <= 1 ns + 0.5 ulp(t) (measured on the unchanged tree: <= 1 ns, exactly 0 at epoch size); ROS2 is outside the statement"]
 
 anyf = st.floats(allow_nan=False, allow_infinity=False, width=64)
 coord = st.one_of(anyf, gen.log_uniform(-300, 300), gen.log_uniform(-3, 7), st.sampled_from([0.0, -0.0, 5e-324, -5e-324, 1.7976931348623157e308,
@@ -238,10 +238,11 @@ def sub_bag(case):
     if back.meta.get("frame_id") != frame:
         raise Mismatch("bag: frame id %r came back as %r" % (frame, back.meta.get("frame_id")), observed="frame_id", fmt="bag")
     dt = np.abs(np.asarray(back.timestamps) - T)
-    tol = 1e-9 + 2 * np.spacing(T)
+    # one nanosecond (the statement) plus half a unit in the last place for the final rounding of sec + nanosec*1e-9
+    tol = 1e-9 + 0.5 * np.spacing(T)
     if np.any(dt > tol):
         k = int(np.argmax(dt - tol))
-        raise Mismatch("bag: timestamp %r came back as %r (|dt| = %.3e > 1 ns + 2 ulp)" % (float(T[k]), float(back.timestamps[k]), float(dt[k])),
+        raise Mismatch("bag: timestamp %r came back as %r (|dt| = %.3e > 1 ns + 0.5 ulp)" % (float(T[k]), float(back.timestamps[k]), float(dt[k])),
                        observed="timestamps", fmt="bag")
     return "bag"
 
